@@ -32,7 +32,7 @@ const (
 
 type cellRun struct {
 	st      int
-	conds   []string
+	cc      []cellCond
 	vis     []string // opaque summands of the visible length
 	nsp     []string // opaque summands of the non-space count
 	n       int      // visible cells contributed by literals
@@ -108,6 +108,56 @@ func scanLit(r cellRun, text string) (cellRun, bool) {
 	return r, true
 }
 
+// cellCond: one class condition on an opaque part.
+type cellCond struct {
+	pred   string // wf | sgrs | p1 | sgr
+	term   string
+	nonEmp bool // additionally: term != ""
+}
+
+// cellRuns runs the recogniser of L over a concatenation; every returned run has consumed all parts.
+func cellRuns(parts []strAtom) []cellRun {
+	runs := []cellRun{{st: stZ, onlySgr: true}}
+	for _, p := range parts {
+		var next []cellRun
+		for _, run := range runs {
+			if p.lit {
+				if nr, ok := scanLit(run, p.text); ok {
+					next = append(next, nr)
+				}
+				continue
+			}
+			x := p.term
+			ext := func(st int, cond cellCond, vis, nsp string, only bool) {
+				nr := run
+				nr.st = st
+				nr.cc = append(append([]cellCond(nil), run.cc...), cond)
+				if vis != "" {
+					nr.vis = append(append([]string(nil), run.vis...), vis)
+					nr.nsp = append(append([]string(nil), run.nsp...), nsp)
+				}
+				nr.onlySgr = run.onlySgr && only
+				next = append(next, nr)
+			}
+			switch run.st {
+			case stZ:
+				ext(stZ, cellCond{"wf", x, false}, "vlen:"+x, "nsc:"+x, false)
+				ext(stS, cellCond{"sgrs", x, true}, "", "", true)
+			case stS:
+				ext(stS, cellCond{"sgrs", x, false}, "", "", true)
+				ext(stR, cellCond{"p1", x, false}, "one", "nsc:"+x, false)
+			case stP0:
+				ext(stPD, cellCond{"sgr", x, false}, "", "", true)
+			}
+		}
+		runs = next
+		if len(runs) > 16 {
+			runs = runs[:16]
+		}
+	}
+	return runs
+}
+
 func (s *State) cellAutomatonFacts(r string) {
 	parts := s.c.catParts[r]
 	if len(parts) < 2 {
@@ -122,57 +172,34 @@ func (s *State) cellAutomatonFacts(r string) {
 	if !hasEsc {
 		return // the binary homomorphism facts already say everything
 	}
-	runs := []cellRun{{st: stZ, onlySgr: true}}
-	for _, p := range parts {
-		var next []cellRun
-		for _, run := range runs {
-			if p.lit {
-				if nr, ok := scanLit(run, p.text); ok {
-					next = append(next, nr)
-				}
-				continue
+	for _, run := range cellRuns(parts) {
+		var conds []string
+		for _, c := range run.cc {
+			t := app(c.pred, c.term)
+			if c.nonEmp {
+				t = and(t, not(eq(c.term, "emp")))
 			}
-			x := p.term
-			ext := func(st int, cond string, vis, nsp string, only bool) {
-				nr := run
-				nr.st = st
-				nr.conds = append(append([]string(nil), run.conds...), cond)
-				if vis != "" {
-					nr.vis = append(append([]string(nil), run.vis...), vis)
-					nr.nsp = append(append([]string(nil), run.nsp...), nsp)
-				}
-				nr.onlySgr = run.onlySgr && only
-				next = append(next, nr)
-			}
-			switch run.st {
-			case stZ:
-				ext(stZ, app("wf", x), app("vlen", x), app("nsc", x), false)
-				ext(stS, and(app("sgrs", x), not(eq(x, "emp"))), "", "", true)
-			case stS:
-				ext(stS, app("sgrs", x), "", "", true)
-				ext(stR, app("p1", x), "1", app("nsc", x), false)
-			case stP0:
-				ext(stPD, app("sgr", x), "", "", true)
-			}
+			conds = append(conds, t)
 		}
-		runs = next
-		if len(runs) > 16 {
-			runs = runs[:16]
-		}
-	}
-	for _, run := range runs {
 		sum := func(ts []string, k int) string {
 			t := fmt.Sprint(k)
 			for _, v := range ts {
-				t = addT(t, v)
+				switch {
+				case v == "one":
+					t = addT(t, "1")
+				case strings.HasPrefix(v, "vlen:"):
+					t = addT(t, app("vlen", v[5:]))
+				case strings.HasPrefix(v, "nsc:"):
+					t = addT(t, app("nsc", v[4:]))
+				}
 			}
 			return t
 		}
 		if run.st == stZ {
-			s.assume(implies(and(run.conds...), and(app("wf", r), eq(app("vlen", r), sum(run.vis, run.n)), eq(app("nsc", r), sum(run.nsp, run.ns)))))
+			s.assume(implies(and(conds...), and(app("wf", r), eq(app("vlen", r), sum(run.vis, run.n)), eq(app("nsc", r), sum(run.nsp, run.ns)))))
 		}
 		if run.onlySgr && (run.st == stS || run.st == stZ) {
-			s.assume(implies(and(run.conds...), app("sgrs", r)))
+			s.assume(implies(and(conds...), app("sgrs", r)))
 		}
 	}
 }
